@@ -194,3 +194,30 @@ def _run_graph_mult(kf):
         if a["outcome"] != "ok" or b["outcome"] != "ok" or not iso_witness(a, b):
             bad = True
     return bad
+
+
+@scope("annot.coarse_fragment_dialect")
+def _coarse_dialect(record):
+    """annotation on a node of a COARSE fragment using a positional entry, 'q' or 'x' (where the
+    coarse dialect of the documentation and the atomistic dialect the code applies differ)"""
+    return record.get("site") == "coarse" and any(e["k"] in ("", "q", "x") for e in record.get("entries", []))
+
+
+@witness_runner("annot.coarse")
+def _run_annot_coarse(kf):
+    from . import project
+    bad = False
+    for w in kf["witness"]:
+        o = project.run_resolve(w["text"], last_all_atom=False)
+        if o["outcome"] != "ok":
+            return True
+        n = [x for x in o["steps"][0]["fine"]["nodes"] if x["map"] == [["X", 0]]][0]
+        if n["raw_charge"] != w["expected_charge"]:
+            bad = True
+    return bad
+
+
+@witness_runner("annot.coarse_fault")
+def _run_annot_coarse_fault(kf):
+    from . import project
+    return any(project.run_resolve(w["text"], last_all_atom=False)["outcome"] != w["expected"] for w in kf["witness"])
